@@ -9,13 +9,23 @@
   ill-formed heaps), every fuel, and hold whether the evaluation returns or raises (the final state
   is what is constrained). Helper lemmas: `Props/Lemmas/C14_Inv.lean` (invariant principle for the
   six mutual evaluators), `C14_Stmt.lean` (the same for statements/blocks), `C14_Env.lean`
-  (`dict.update` facts), `C14_Frame.lean` (the two instances, `load` unfoldings).
+  (`dict.update` facts), `C14_Frame.lean` (the two instances, `load` unfoldings), `C14_Hidden.lean`
+  (evaluation commutes with replacing the per-Context namespace object's raw slot).
 
   What the model is and is not: see the header of `PyNs.lean` — a model of NAME BINDING under
   CPython 3.12's compilation scheme over pypyr's namespace objects; the scheme itself is validated by
   the correspondence harness only.
+
+  `runEval false` is `Context.get_eval_string` as it is NOW (commits 81f45d6 + 2f08756: one throw-away
+  `_EvalNamespace` per evaluation, used as globals and locals, own dict → context → imports →
+  builtins); `runEval true` is the code before 62901c4 and `runEvalChild` the code in between — both
+  kept only for the two pre-fix witnesses of section 2. `runRehydrate` / `runCtxSet` / `runCtxDel` /
+  `runClearAll` are the non-Python operations the harness interleaves with evaluations on one Context.
+  A function object made by an EARLIER evaluation / py step still carries that run's namespace object
+  as its globals, which the model does not keep: calling one is `outOfDomain` (`callee`).
 -/
 import Props.Lemmas.C14_Frame
+import Props.Lemmas.C14_Hidden
 
 namespace Pypyr.C14
 open Pypyr.PyNs
@@ -60,47 +70,92 @@ def exBlock : List Stmt :=
    .save ["r", "g", "f"] [("k", .name "C")],
    .del "a"]
 
-/-! ### 1. `!py` cannot touch the context (repaired `get_eval_string`) -/
+/-! ### 1. `!py` cannot touch the context — nor anything else but the heap (`get_eval_string` NOW) -/
 
-/-- `eval_frame`: for the repaired arrangement `eval(src, ns, ns.new_child())`, for EVERY expression,
-    fuel and state — whether the evaluation returns or raises — the context afterwards IS the context
-    before (same key list in the same order, same bindings), and so are the pyimport mapping, the
-    builtins and the save log; the throw-away child map is gone. (Only the heap and the raw dict slot
-    of the namespace object — `hidden`, finding E4 — can differ.) -/
+/-- `eval_frame`: for the arrangement of `get_eval_string` as it is now
+    (`n = _EvalNamespace(ctx, imps); eval(src, n, n)`), for EVERY expression, fuel and state — whether
+    the evaluation returns or raises — the WHOLE state afterwards is the state before except for the
+    heap: the context (same key list in the same order, same bindings), the pyimport mapping, the raw
+    dict slot of the per-Context namespace object (`hidden`: nothing an expression binds outlives
+    the evaluation — this is what 81f45d6 + 2f08756 repaired), the builtins, the save log; the
+    throw-away namespace is gone. Only heap cells (in-place mutations, new objects) can differ. -/
 theorem eval_frame (fuel : Nat) (st : St) (e : Expr) :
+    (runEval false fuel st e).2 =
+      { st with heap := (runEval false fuel st e).2.heap, scratch := [] } := by
+  have h := evalExpr_evalFixed_rest fuel
+    { kind := .module, chain := [], explicit := e.compWalrus, base := st.heap.length } e
+    { st with scratch := ownInit }
+  apply St.ext'
+  · simpa only [runEval, Bool.false_eq_true, if_false, St.evalRest] using h
+  · rfl
+  · rfl
+
+/-- `eval_frame` field by field. -/
+theorem eval_frame_fields (fuel : Nat) (st : St) (e : Expr) :
     (runEval false fuel st e).2.ctx = st.ctx ∧
     (runEval false fuel st e).2.imps = st.imps ∧
+    (runEval false fuel st e).2.hidden = st.hidden ∧
     (runEval false fuel st e).2.bi = st.bi ∧
     (runEval false fuel st e).2.saved = st.saved ∧
+    (runEval false fuel st e).2.ns = st.ns ∧
     (runEval false fuel st e).2.scratch = [] := by
-  have h := evalExpr_evalFixed_rest fuel
-    { kind := .module, chain := [], explicit := e.compWalrus } e { st with scratch := [] }
-  simp only [St.evalRest, Prod.mk.injEq] at h
-  exact ⟨h.1, h.2.1, h.2.2.2.1, h.2.2.2.2, rfl⟩
+  have h := eval_frame fuel st e
+  refine ⟨?_, ?_, ?_, ?_, ?_, ?_, ?_⟩ <;> rw [h]
 
 /-- The example expression runs to completion with three assignment expressions at three different
-    nestings; the comprehension one lands in the raw dict slot, none in the context. -/
-example : (runEval false 30 exSt exExpr).2.hidden = [("__builtins__", builtinsTok), ("y", .cst 2)] ∧
+    nestings; none lands in the context or in the per-Context namespace object; the append is
+    visible. -/
+example : (runEval false 30 exSt exExpr).2.hidden = [("__builtins__", builtinsTok)] ∧
     (runEval false 30 exSt exExpr).2.ctx = exSt.ctx ∧
     seqItems (runEval false 30 exSt exExpr).2.heap (.ref 1) = some [.cst 7, .tok .ctx "len"] := by
   decide +kernel
 
 /-- `eval_frame_nested`: the same at every scope nesting (inside lambdas, comprehensions, calls of
-    closures found in the heap), not only for the top-level entry point. -/
+    closures found in the heap), not only for the top-level entry point: only the throw-away own
+    dict and the heap can differ. -/
 theorem eval_frame_nested (fuel : Nat) (sc : Scope) (st : St) (e : Expr) :
     (evalExpr .evalFixed fuel sc e st).2.ctx = st.ctx ∧
-    (evalExpr .evalFixed fuel sc e st).2.imps = st.imps := by
+    (evalExpr .evalFixed fuel sc e st).2.imps = st.imps ∧
+    (evalExpr .evalFixed fuel sc e st).2.hidden = st.hidden := by
   have h := evalExpr_evalFixed_rest fuel sc e st
   simp only [St.evalRest, Prod.mk.injEq] at h
-  exact ⟨h.1, h.2.1⟩
+  exact ⟨h.1, h.2.1, h.2.2.1⟩
 
-example : (evalExpr .evalFixed 30 { kind := .func, chain := [], explicit := [] } exExpr exSt).2.hidden =
-    [("__builtins__", builtinsTok), ("x", .tok .ctx "a"), ("y", .cst 2)] := by decide +kernel
+/-- inside a function scope both the module-level `x` and the comprehension's `y` go to the own dict
+    of the throw-away namespace -/
+example : (evalExpr .evalFixed 30 { kind := .func, chain := [], explicit := [] } exExpr exSt).2.scratch =
+    [("x", .tok .ctx "a"), ("y", .cst 2)] ∧
+    (evalExpr .evalFixed 30 { kind := .func, chain := [], explicit := [] } exExpr exSt).2.hidden = exSt.hidden := by
+  decide +kernel
 
-/-! ### 2. … which the code before commit 62901c4 did not guarantee (F6) -/
+/-- `eval_session_frame`: any number of evaluations one after the other on the same context (a
+    session of `!py` strings) leave context, imports and the per-Context namespace object as they
+    were: nothing accumulates from one evaluation to the next. -/
+theorem eval_session_frame (fuel : Nat) (es : List Expr) (st : St) :
+    (es.foldl (fun s e => (runEval false fuel s e).2) st).ctx = st.ctx ∧
+    (es.foldl (fun s e => (runEval false fuel s e).2) st).imps = st.imps ∧
+    (es.foldl (fun s e => (runEval false fuel s e).2) st).hidden = st.hidden := by
+  induction es generalizing st with
+  | nil => exact ⟨rfl, rfl, rfl⟩
+  | cons e rest ih =>
+    obtain ⟨h1, h2, h3, _⟩ := eval_frame_fields fuel st e
+    obtain ⟨i1, i2, i3⟩ := ih (runEval false fuel st e).2
+    exact ⟨i1.trans h1, i2.trans h2, i3.trans h3⟩
+
+/-- `(x := a)`, then `[(y := i) for i in T]`, then `x`: the third evaluation is a NameError — the
+    first one's binding is gone — and the context is as it was. -/
+example : (runEval false 30 ([Expr.walrus "x" (.name "a"),
+      .comp false (.walrus "y" (.name "i")) [("i", .name "T", [])]].foldl
+        (fun s e => (runEval false 30 s e).2) exSt) (.name "x")).1 = .err .nameError ∧
+    (runEval false 30 ([Expr.walrus "x" (.name "a"),
+      .comp false (.walrus "y" (.name "i")) [("i", .name "T", [])]].foldl
+        (fun s e => (runEval false 30 s e).2) exSt) (.name "y")).1 = .err .nameError := by
+  decide +kernel
+
+/-! ### 2. … which the code before commits 62901c4 / 81f45d6 did not guarantee (F6) -/
 
 /-- `walrus_leak_pre_fix`: the witness. With `eval(src, ns)` (locals is globals) the top-level
-    assignment expression `(x := 5)` ADDS key `x` to the context; with the repaired arrangement the
+    assignment expression `(x := 5)` ADDS key `x` to the context; with the arrangement now the
     same expression leaves the context as it was. -/
 theorem walrus_leak_pre_fix :
     (runEval true 5 exSt (.walrus "x" (.const 5))).2.ctx = exSt.ctx ++ [("x", .cst 5)] ∧
@@ -115,6 +170,24 @@ theorem walrus_leak_pre_fix_all (fuel : Nat) (st : St) (x : String) (n : Nat) :
 
 example : (runEval true 2 exSt (.walrus "a" (.const 5))).2.ctx.get? "a" = some (.cst 5) := by
   decide +kernel
+
+/-- `comp_walrus_leftover_pre_fix`: the second witness (the code of 62901c4 .. 81f45d6^,
+    `eval(src, ns, ns.new_child())`). `[(y := i) for i in T]` left `y` behind in the raw dict slot of
+    the per-Context namespace object, where a LATER `!py y` found it, and
+    `([(y := i) for i in T], y)` could not read its own binding back (NameError); with the arrangement
+    now nothing is left, the later `y` is a NameError, and the read-back works. -/
+theorem comp_walrus_leftover_pre_fix :
+    let e : Expr := .comp false (.walrus "y" (.name "i")) [("i", .name "T", [])]
+    (runEvalChild 30 exSt e).2.hidden = [("__builtins__", builtinsTok), ("y", .cst 2)] ∧
+    (runEvalChild 30 (runEvalChild 30 exSt e).2 (.name "y")).1 = .ok (.cst 2) ∧
+    (runEvalChild 30 exSt (.tuple [e, .name "y"])).1 = .err .nameError ∧
+    (runEval false 30 exSt e).2.hidden = [("__builtins__", builtinsTok)] ∧
+    (runEval false 30 (runEval false 30 exSt e).2 (.name "y")).1 = .err .nameError ∧
+    (∃ r, (runEval false 30 exSt (.tuple [e, .name "y"])).1 = .ok (.ref r) ∧
+      (seqItems (runEval false 30 exSt (.tuple [e, .name "y"])).2.heap (.ref r)).map (·.drop 1) =
+        some [.cst 2]) := by
+  refine ⟨by decide +kernel, by decide +kernel, by decide +kernel, by decide +kernel,
+    by decide +kernel, ⟨4, by decide +kernel, by decide +kernel⟩⟩
 
 /-! ### 3. a py block changes the context only through `save` -/
 
@@ -137,7 +210,8 @@ theorem exec_frame (fuel : Nat) (st : St) (b : List Stmt) :
       (runPyStep fuel st b).2.scratch = st.scratch ∧
       (runPyStep fuel st b).2.ns = [] := by
   obtain ⟨log, h1, h2, h3, h4, h5, h6, h7⟩ := execBlock_exec_saved fuel
-    { kind := .module, chain := [], explicit := blockExplicit b } b { st with ns := pyStepNs st.ctx }
+    { kind := .module, chain := [], explicit := blockExplicit b, base := st.heap.length } b
+    { st with ns := pyStepNs st.ctx }
   exact ⟨log, h1, h2, h3, h4, h7, h5, h6, rfl⟩
 
 /-- The example block binds `x`, `math`, `f`, `C`, `r`, `g` and deletes its copy of `a`; the context
@@ -238,8 +312,9 @@ example : (execStmt .exec 5 { kind := .module, chain := [], explicit := [] } (.s
 
 /-- `imports_beside_context`: `pyimport` changes the imports mapping and nothing else (the context
     in particular); and afterwards a `!py` read of ANY name `x` resolves, in this order, to: the
-    context's binding; the newly imported binding (the last one for `x`); an earlier import; the raw
-    dict slot of the namespace object (`__builtins__`, E1/E4); the builtins; else NameError. -/
+    own dict of the new namespace object (which at the start of an evaluation holds `__builtins__`
+    and nothing else); the context's binding; the newly imported binding (the last one for `x`); an
+    earlier import; the builtins; else NameError. -/
 theorem imports_beside_context (fuel : Nat) (st : St) (bindings : Env) (x : String) :
     (runPyImport st bindings).ctx = st.ctx ∧
     (runPyImport st bindings).bi = st.bi ∧
@@ -247,30 +322,42 @@ theorem imports_beside_context (fuel : Nat) (st : St) (bindings : Env) (x : Stri
     (runPyImport st bindings).heap = st.heap ∧
     (runPyImport st bindings).saved = st.saved ∧
     (runEval false (fuel + 1) (runPyImport st bindings) (.name x)).1 =
-      optRes (orElse (st.ctx.get? x) (orElse (Env.get? bindings.reverse x) (orElse (st.imps.get? x)
-        (orElse (st.hidden.get? x) (st.bi.get? x))))) := by
+      optRes (orElse (ownInit.get? x) (orElse (st.ctx.get? x) (orElse (Env.get? bindings.reverse x)
+        (orElse (st.imps.get? x) (st.bi.get? x))))) := by
   refine ⟨rfl, rfl, rfl, rfl, rfl, ?_⟩
   rw [runEval_name]
-  simp only [Bool.false_eq_true, if_false, loadName, localsGetItem, globalsRaw, runPyImport,
-    Env.get?_nil, orElse_none_left, Env.get?_update, orElse_assoc]
+  simp only [Bool.false_eq_true, if_false, loadName_evalFixed, loadGlobal_evalFixed, runPyImport,
+    Env.get?_update, orElse_assoc]
 
 example : (runEval false 1 (runPyImport exSt [("os", .tok .mod "os"), ("abs", .tok .imp "abs")])
       (.name "abs")).1 = .ok (.tok .imp "abs") ∧
     (runEval false 1 (runPyImport exSt [("os", .tok .mod "os")]) (.name "abs")).1 = .ok (.tok .bi "abs") :=
   ⟨rfl, rfl⟩
 
+/-- The same read from inside a lambda: the same layers in the same order (one namespace object for
+    globals and locals). -/
+theorem imports_beside_context_nested (fuel : Nat) (st : St) (bindings : Env) (x : String) :
+    (runEval false (fuel + 4) (runPyImport st bindings) (.call (.lam [] (.name x)) [])).1 =
+      optRes (orElse (ownInit.get? x) (orElse (st.ctx.get? x) (orElse (Env.get? bindings.reverse x)
+        (orElse (st.imps.get? x) (st.bi.get? x))))) := by
+  simp only [runEval, Bool.false_eq_true, if_false]
+  rw [lambda_reads_global _ _ _ _ _ rfl (Nat.le_refl _)]
+  simp only [loadGlobal_evalFixed, runPyImport, Env.get?_update, orElse_assoc]
+
+example : (runEval false 4 (runPyImport exSt [("os", .tok .mod "os")]) (.call (.lam [] (.name "os")) [])).1 =
+    .ok (.tok .mod "os") := rfl
+
 /-- `import_visible`: a name bound by pyimport and not a context key resolves to the imported
-    object — at top level and inside a lambda. -/
+    object — at top level and inside a lambda. (`__builtins__` is not importable over: the new
+    namespace object's own entry stands first.) -/
 theorem import_visible (fuel : Nat) (st : St) (bindings : Env) (x : String) (v : V)
+    (hx : x ≠ "__builtins__")
     (hc : st.ctx.get? x = Option.none) (hb : Env.get? bindings.reverse x = some v) :
     (runEval false (fuel + 1) (runPyImport st bindings) (.name x)).1 = .ok v ∧
     (runEval false (fuel + 4) (runPyImport st bindings) (.call (.lam [] (.name x)) [])).1 = .ok v := by
   constructor
-  · rw [(imports_beside_context fuel st bindings x).2.2.2.2.2, hc, hb]; rfl
-  · simp only [runEval, Bool.false_eq_true, if_false]
-    rw [lambda_reads_global _ _ _ _ _ rfl]
-    simp only [loadGlobal, globalsGetItem, runPyImport, Env.get?_update, hc, hb]
-    rfl
+  · rw [(imports_beside_context fuel st bindings x).2.2.2.2.2, ownInit_get?_of_ne x hx, hc, hb]; rfl
+  · rw [imports_beside_context_nested, ownInit_get?_of_ne x hx, hc, hb]; rfl
 
 example : exSt.ctx.get? "os" = Option.none ∧
     Env.get? [("os", V.tok .mod "os"), ("abs", .tok .imp "abs")].reverse "os" = some (.tok .mod "os") := by
@@ -279,75 +366,207 @@ example : exSt.ctx.get? "os" = Option.none ∧
 /-- `context_shadows_import`: a name that is both a context key and a pyimport name reads as the
     context's value (the import never replaces it) — at top level and inside a lambda. -/
 theorem context_shadows_import (fuel : Nat) (st : St) (bindings : Env) (x : String) (v : V)
-    (hc : st.ctx.get? x = some v) :
+    (hx : x ≠ "__builtins__") (hc : st.ctx.get? x = some v) :
     (runEval false (fuel + 1) (runPyImport st bindings) (.name x)).1 = .ok v ∧
     (runEval false (fuel + 4) (runPyImport st bindings) (.call (.lam [] (.name x)) [])).1 = .ok v := by
   constructor
-  · rw [(imports_beside_context fuel st bindings x).2.2.2.2.2, hc]; rfl
-  · simp only [runEval, Bool.false_eq_true, if_false]
-    rw [lambda_reads_global _ _ _ _ _ rfl]
-    simp only [loadGlobal, globalsGetItem, runPyImport, hc]
-    rfl
+  · rw [(imports_beside_context fuel st bindings x).2.2.2.2.2, ownInit_get?_of_ne x hx, hc]; rfl
+  · rw [imports_beside_context_nested, ownInit_get?_of_ne x hx, hc]; rfl
 
 example : (runEval false 4 (runPyImport exSt [("len", .tok .imp "len")]) (.call (.lam [] (.name "len")) [])).1 =
     .ok (.tok .ctx "len") := rfl
 
 /-- `builtins_last`: a name that neither the context nor any pyimport binds falls through to the
-    builtins (at top level after the raw dict slot, which holds `__builtins__`; inside a lambda
-    directly). -/
+    builtins, at top level and inside a lambda alike (`__builtins__` itself is answered by the
+    namespace object's own entry, in both). -/
 theorem builtins_last (fuel : Nat) (st : St) (bindings : Env) (x : String)
     (hc : st.ctx.get? x = Option.none) (hb : Env.get? bindings.reverse x = Option.none)
     (hi : st.imps.get? x = Option.none) :
     (runEval false (fuel + 1) (runPyImport st bindings) (.name x)).1 =
-      optRes (orElse (st.hidden.get? x) (st.bi.get? x)) ∧
+      optRes (orElse (ownInit.get? x) (st.bi.get? x)) ∧
     (runEval false (fuel + 4) (runPyImport st bindings) (.call (.lam [] (.name x)) [])).1 =
-      optRes (st.bi.get? x) := by
+      optRes (orElse (ownInit.get? x) (st.bi.get? x)) := by
   constructor
   · rw [(imports_beside_context fuel st bindings x).2.2.2.2.2, hc, hb, hi]; rfl
-  · simp only [runEval, Bool.false_eq_true, if_false]
-    rw [lambda_reads_global _ _ _ _ _ rfl]
-    simp only [loadGlobal, globalsGetItem, runPyImport, Env.get?_update, hc, hb, hi]
-    rfl
+  · rw [imports_beside_context_nested, hc, hb, hi]; rfl
 
 example : (runEval false 4 (runPyImport exSt [("os", .tok .mod "os")]) (.call (.lam [] (.name "abs")) [])).1 =
       .ok (.tok .bi "abs") ∧
     (runEval false 1 exSt (.name "__builtins__")).1 = .ok builtinsTok ∧
-    (runEval false 4 exSt (.call (.lam [] (.name "__builtins__")) [])).1 = .err .nameError :=
-  ⟨rfl, rfl, rfl⟩
+    (runEval false 4 exSt (.call (.lam [] (.name "__builtins__")) [])).1 = .ok builtinsTok ∧
+    (runEval false 4 exSt (.call (.lam [] (.name "nope")) [])).1 = .err .nameError :=
+  ⟨rfl, rfl, rfl, rfl⟩
+
+/-- `rehydrate_invisible`: a Context that went through `__getstate__`/`__setstate__` (pickle round
+    trip, `copy.deepcopy`, `copy.copy`) keeps context, imports, builtins, heap; and a pyimport made
+    AFTER the rehydration is read by `!py` exactly as on the original object, at top level and
+    inside a lambda (the rebuilt namespace object chains the same two mappings). -/
+theorem rehydrate_invisible (fuel : Nat) (st : St) (bindings : Env) (x : String) :
+    (runRehydrate st).ctx = st.ctx ∧ (runRehydrate st).imps = st.imps ∧
+    (runRehydrate st).bi = st.bi ∧ (runRehydrate st).heap = st.heap ∧
+    (runRehydrate st).saved = st.saved ∧
+    (runEval false (fuel + 1) (runPyImport (runRehydrate st) bindings) (.name x)).1 =
+      (runEval false (fuel + 1) (runPyImport st bindings) (.name x)).1 ∧
+    (runEval false (fuel + 4) (runPyImport (runRehydrate st) bindings) (.call (.lam [] (.name x)) [])).1 =
+      (runEval false (fuel + 4) (runPyImport st bindings) (.call (.lam [] (.name x)) [])).1 := by
+  refine ⟨rfl, rfl, rfl, rfl, rfl, ?_, ?_⟩
+  · rw [(imports_beside_context fuel _ bindings x).2.2.2.2.2,
+      (imports_beside_context fuel st bindings x).2.2.2.2.2]; rfl
+  · rw [imports_beside_context_nested, imports_beside_context_nested]; rfl
+
+example : (runEval false 1 (runPyImport (runRehydrate exSt) [("os", .tok .mod "os")]) (.name "os")).1 =
+    .ok (.tok .mod "os") ∧
+    (runEval false 1 (runClearAll (runPyImport (runRehydrate exSt) [("os", .tok .mod "os")])) (.name "os")).1 =
+    .err .nameError ∧
+    (runEval false 1 (runClearAll exSt) (.name "math")).1 = .err .nameError := ⟨rfl, rfl, rfl⟩
+
+/-- `eval_ignores_namespace_object`: for EVERY expression, fuel and state, `get_eval_string` as it is
+    now neither reads nor writes the raw dict slot of the per-Context `_pystring_namespace` object:
+    the result is the same whatever that slot holds, and so is the final state (with the slot as it
+    was put). Whatever an older evaluation (or an older pypyr) left in that object cannot show up in a
+    read. -/
+theorem eval_ignores_namespace_object (fuel : Nat) (st : St) (e : Expr) (h : Env) :
+    runEval false fuel { st with hidden := h } e =
+      ((runEval false fuel st e).1, { (runEval false fuel st e).2 with hidden := h }) := by
+  have key := (eval_hidden h fuel).1
+    { kind := .module, chain := [], explicit := e.compWalrus, base := st.heap.length } e
+    { st with scratch := ownInit }
+  simp only [runEval, Bool.false_eq_true, if_false]
+  change (match evalExpr .evalFixed fuel _ e (St.withHidden h { st with scratch := ownInit }) with
+    | (r, st1) => (r, { st1 with scratch := [] })) = _
+  rw [key]
+  rfl
+
+/-- a stale `y` in the per-Context object (what the code before 81f45d6 left behind) is not readable -/
+example : (runEval false 3 { exSt with hidden := exSt.hidden ++ [("y", .cst 2)] } (.name "y")).1 = .err .nameError ∧
+    (runEval false 4 { exSt with hidden := exSt.hidden ++ [("y", .cst 2)] } (.call (.lam [] (.name "y")) [])).1 =
+      .err .nameError := ⟨rfl, rfl⟩
+
+/-- `rehydrate_invisible_everywhere`: a Context that went through `__getstate__`/`__setstate__`
+    evaluates EVERY `!py` expression to the same result, with the same effect on the heap, as the
+    original object would have (strengthens `rehydrate_invisible` from name reads to all expressions). -/
+theorem rehydrate_invisible_everywhere (fuel : Nat) (st : St) (e : Expr) :
+    (runEval false fuel (runRehydrate st) e).1 = (runEval false fuel st e).1 ∧
+    (runEval false fuel (runRehydrate st) e).2 = runRehydrate (runEval false fuel st e).2 := by
+  have h := eval_ignores_namespace_object fuel st e ownInit
+  simp only [runRehydrate]
+  rw [h]
+  exact ⟨rfl, rfl⟩
+
+example : (runEval false 30 (runRehydrate exSt) exExpr).1 = (runEval false 30 exSt exExpr).1 := by
+  decide +kernel
 
 /-! ### 5. context keys are variables in every scope -/
 
-/-- `eval_reads_context_everywhere`: under both `!py` arrangements, in EVERY scope (`sc`: module
-    level, inside any nesting of lambdas / generator expressions / inlined comprehensions — any frame
-    chain, any heap), a read of a context key `x` yields the context's value, provided no enclosing
-    local scope declares `x` (`chainLoad` does not hit: it misses, or finds `x` declared `global`).
-    Imports and builtins of the same name do not matter. Two side conditions, both on what the
-    model's scopes can be: `hkind` — the scope is not directly a class body (those exist only in py
-    blocks, see `exec_reads_context_everywhere`); `hscr` — at module level of the repaired
-    arrangement an earlier top-level `(x := …)` of the SAME expression shadows the key in the
-    throw-away child map (E5), so that map must not bind `x`. -/
-theorem eval_reads_context_everywhere (old : Bool) (sc : Scope) (st : St) (x : String) (v : V)
+/-- `eval_one_namespace`: under the arrangement now, in EVERY scope (`sc`: module level, inside any
+    nesting of lambdas / generator expressions / inlined comprehensions — any frame chain, any heap)
+    a read of a name `x` that no enclosing local scope declares (`chainLoad` misses, or finds `x`
+    declared `global`) resolves through the same layers in the same order: what the SAME expression
+    bound so far (own dict of the throw-away namespace; `__builtins__` at the start), the context,
+    the imports, the builtins — plain Python's rule for a global variable. `hkind`: the scope is not
+    directly a class body (those exist only in py blocks). -/
+theorem eval_one_namespace (sc : Scope) (st : St) (x : String)
     (hchain : chainLoad st.heap x sc.chain = .miss ∨ chainLoad st.heap x sc.chain = .declGlobal)
-    (hkind : ∀ r, sc.kind ≠ .cls r)
-    (hscr : sc.kind = .module → sc.explicit.contains x = false → st.scratch.get? x = Option.none)
-    (hctx : st.ctx.get? x = some v) :
-    load (if old then .evalOld else .evalFixed) sc st x = .ok v := by
-  have hg : ∀ a : Arr, a ≠ .exec → loadGlobal a st x = some v := by
-    intro a ha
-    cases a <;> first | exact absurd rfl ha | simp [loadGlobal, globalsGetItem, hctx, orElse]
-  have ha : (if old then Arr.evalOld else Arr.evalFixed) ≠ .exec := by cases old <;> simp
+    (hkind : ∀ r, sc.kind ≠ .cls r) :
+    load .evalFixed sc st x =
+      optRes (orElse (st.scratch.get? x) (orElse (st.ctx.get? x)
+        (orElse (st.imps.get? x) (st.bi.get? x)))) := by
+  rw [← loadGlobal_evalFixed]
   rcases hchain with h | h
   · cases hk : sc.kind with
     | module =>
-      rw [load_of_miss_module _ _ _ _ h hk]
-      split
-      · rw [hg _ ha]; rfl
-      · rename_i hex
-        have hs := hscr hk (by simpa using hex)
-        cases old <;> simp [loadName, localsGetItem, hctx, hs, orElse, optRes]
-    | func => rw [load_of_miss_func _ _ _ _ h hk, hg _ ha]; rfl
+      rw [load_of_miss_module _ _ _ _ h hk, loadName_evalFixed]
+      split <;> rfl
+    | func => rw [load_of_miss_func _ _ _ _ h hk]
     | cls r => exact absurd hk (hkind r)
-  · rw [load_of_declGlobal _ _ _ _ h, hg _ ha]; rfl
+  · rw [load_of_declGlobal _ _ _ _ h]
+
+example : load .evalFixed { kind := .func, chain := [], explicit := [] }
+      { exSt with scratch := [("a", .cst 5)] } "a" = .ok (.cst 5) ∧
+    load .evalFixed { kind := .module, chain := [], explicit := [] } exSt "a" = .ok (.tok .ctx "a") :=
+  ⟨rfl, rfl⟩
+
+/-- `eval_reads_context_everywhere`: under the `!py` arrangement now (`old = false`) and the one
+    before 62901c4 (`old = true`), in EVERY scope, a read of a context key `x` yields the context's
+    value, provided no enclosing local scope declares `x`. Imports and builtins of the same name do
+    not matter. Side conditions: `hkind` — the scope is not directly a class body; `hown` — the
+    SAME expression has not itself bound `x` with an assignment expression earlier in this
+    evaluation (then `own_binding_shadows_everywhere` applies: plain Python's shadowing). At the
+    start of an evaluation the own dict is `{__builtins__}`, so `hown` holds for every other name. -/
+theorem eval_reads_context_everywhere (old : Bool) (sc : Scope) (st : St) (x : String) (v : V)
+    (hchain : chainLoad st.heap x sc.chain = .miss ∨ chainLoad st.heap x sc.chain = .declGlobal)
+    (hkind : ∀ r, sc.kind ≠ .cls r)
+    (hown : old = false → st.scratch.get? x = Option.none)
+    (hctx : st.ctx.get? x = some v) :
+    load (if old then .evalOld else .evalFixed) sc st x = .ok v := by
+  cases old with
+  | false =>
+    simp only [Bool.false_eq_true, if_false]
+    rw [eval_one_namespace sc st x hchain hkind, hown rfl, hctx]; rfl
+  | true =>
+    simp only [if_true]
+    have hg : loadGlobal .evalOld st x = some v := by
+      simp [loadGlobal, globalsGetItem, hctx, orElse]
+    rcases hchain with h | h
+    · cases hk : sc.kind with
+      | module =>
+        rw [load_of_miss_module _ _ _ _ h hk]
+        split
+        · rw [hg]; rfl
+        · simp [loadName, localsGetItem, hctx, orElse, optRes]
+      | func => rw [load_of_miss_func _ _ _ _ h hk, hg]; rfl
+      | cls r => exact absurd hk (hkind r)
+    · rw [load_of_declGlobal _ _ _ _ h, hg]; rfl
+
+/-- `own_binding_shadows_everywhere`: what an assignment expression of the SAME `!py` expression
+    bound (at top level or inside a comprehension: both go to the own dict of the throw-away
+    namespace, see `walrus_binds_own_dict`) is what every later read of that name in this evaluation
+    yields, in EVERY scope — in front of a context key, an import, a builtin of the same name. That
+    is plain Python's rule for `(n := …)` on a global; the context itself keeps its binding
+    (`eval_frame`). -/
+theorem own_binding_shadows_everywhere (sc : Scope) (st : St) (x : String) (w : V)
+    (hchain : chainLoad st.heap x sc.chain = .miss ∨ chainLoad st.heap x sc.chain = .declGlobal)
+    (hkind : ∀ r, sc.kind ≠ .cls r)
+    (hown : st.scratch.get? x = some w) :
+    load .evalFixed sc st x = .ok w := by
+  rw [eval_one_namespace sc st x hchain hkind, hown]; rfl
+
+/-- `walrus_binds_own_dict`: an assignment expression whose target no enclosing FUNCTION scope
+    owns (module level, or inside comprehensions at module level — `chainStore` skips comprehension
+    frames; or a `global` declaration) binds in the own dict of the throw-away namespace, replaces
+    an earlier such binding, and touches nothing else. -/
+theorem walrus_binds_own_dict (sc : Scope) (st : St) (x : String) (v : V)
+    (hchain : chainStore st.heap x sc.chain = .default ∨ chainStore st.heap x sc.chain = .global)
+    (hkind : ∀ r, sc.kind ≠ .cls r) :
+    store .evalFixed sc st x v = { st with scratch := st.scratch.set x v } ∧
+    (store .evalFixed sc st x v).scratch.get? x = some v ∧
+    (store .evalFixed sc st x v).ctx = st.ctx := by
+  have h : store .evalFixed sc st x v = { st with scratch := st.scratch.set x v } := by
+    unfold PyNs.store
+    rcases hchain with h | h
+    · rw [h]
+      cases hk : sc.kind with
+      | module => simp only []; split <;> rfl
+      | func => rfl
+      | cls r => exact absurd hk (hkind r)
+    · rw [h]; rfl
+  rw [h]
+  exact ⟨rfl, Env.get?_set_same _ _ _, rfl⟩
+
+/-- `n` is a context key: `[n for i in T if (n := i)]` reads back what it bound (1, 2), not the
+    context's `n`; `([(n := i) for i in T], n, (lambda: n)())` sees the last binding at top level
+    and inside the lambda; the context's `n` is untouched, and the next evaluation reads it again. -/
+example :
+    let st : St := { exSt with ctx := exSt.ctx ++ [("n", .tok .ctx "n")] }
+    let e1 : Expr := .comp false (.name "n") [("i", .name "T", [.walrus "n" (.name "i")])]
+    let e2 : Expr := .tuple [.comp false (.walrus "n" (.name "i")) [("i", .name "T", [])], .name "n",
+                             .call (.lam [] (.name "n")) []]
+    seqItems (runEval false 30 st e1).2.heap (.ref 3) = some [.cst 1, .cst 2] ∧
+    (runEval false 30 st e2).1 = .ok (.ref 6) ∧
+    (seqItems (runEval false 30 st e2).2.heap (.ref 6)).map (·.drop 1) = some [.cst 2, .cst 2] ∧
+    (runEval false 30 st e2).2.ctx = st.ctx ∧
+    (runEval false 30 (runEval false 30 st e2).2 (.name "n")).1 = .ok (.tok .ctx "n") := by
+  refine ⟨by decide +kernel, by decide +kernel, by decide +kernel, by decide +kernel, by decide +kernel⟩
 
 /-- Non-vacuity on run-time scopes: the read of `a` happens three scopes deep —
     `(lambda p: [*( (lambda: (i, j, a, len))() for i in T for j in T )])(a)` — and, with a shadowing
@@ -454,11 +673,12 @@ example : seqItems (runPyStep 2 exSt [.expr (.append (.name "L") (.const 9))]).2
 /-- `inplace_visible_eval`: the same through a `!py` expression: `k.append(n)` mutates the object
     the context holds; the context itself is as before. -/
 theorem inplace_visible_eval (fuel : Nat) (st : St) (k : String) (r : Nat) (xs : List V) (n : Nat)
+    (h1 : k ≠ "__builtins__")
     (hk : st.ctx.get? k = some (.ref r)) (hr : st.heap[r]? = some (.list xs)) :
     runEval false (fuel + 2) st (.append (.name k) (.const n)) =
       (.ok .none, { st with heap := st.heap.set r (.list (xs ++ [.cst n])), scratch := [] }) := by
   simp [runEval, evalExpr, load, chainLoad, Expr.compWalrus, loadName, localsGetItem, hk, orElse,
-    optRes, appendable, hr, doAppend, St.heapSet, Env.get?]
+    optRes, appendable, hr, doAppend, St.heapSet, ownInit_get?_of_ne k h1]
 
 example : seqItems (runEval false 2 exSt (.append (.name "L") (.const 9))).2.heap (.ref 1) =
     some [.cst 7, .cst 9] := by decide +kernel
@@ -468,7 +688,7 @@ example : seqItems (runEval false 2 exSt (.append (.name "L") (.const 9))).2.hea
     references) every in-place mutation made by ANY block is visible through the context afterwards. -/
 theorem heap_not_rolled_back (fuel : Nat) (st : St) (b : List Stmt) :
     (runPyStep fuel st b).2.heap =
-      (execBlock .exec fuel { kind := .module, chain := [], explicit := blockExplicit b } b
+      (execBlock .exec fuel { kind := .module, chain := [], explicit := blockExplicit b, base := st.heap.length } b
         { st with ns := pyStepNs st.ctx }).2.heap := rfl
 
 example : (runPyStep 30 exSt exBlock).2.ctx.get? "L" = some (.ref 1) ∧
